@@ -985,7 +985,7 @@ def run_shard(shard, tier, rec):
             rec.case((term, dkey), nontrivial=nontrivial)
             rec.outcome((U, term[1], outcome))
             rec.count("terms_with_%d_constructors" % n_constructors(term))
-            if nontrivial and outcome[0] >= 2 and n_constructors(term) >= 2 and (rec.evaluations % 1013) == 11:
+            if nontrivial and isinstance(outcome[0], int) and outcome[0] >= 2 and n_constructors(term) >= 2 and (rec.evaluations % 1013) == 11:
                 rec.sample(dict(term=term_str(term), data=repr(dkey), rows_returned=outcome[0]))
             for kind, msg in problems:
                 if ("seen", kind, term) in rec._vsigs:
